@@ -40,6 +40,7 @@ ASSUMPTIONS = [
     "templates do not use names starting with __M_ / _mako_ / _import_ns nor the generated module's own globals (runtime, filters, cache, render_*)",
     "<%namespace> tags with inline defs, <%page args=\"**kw\">, cached defs (the `limit` argument) and defs inside control blocks of a <%call> are outside the modelled fragment",
     "a <%call> body executes once, in place (the callee calls caller.body() exactly once)",
+    "two <%def>s of the same name in one template (the later silently replaces the earlier in topleveldefs / closuredefs) are not modelled",
 ]
 TRUSTED_EXTRA = ["C04: the reference interpreter harness/c04_gen.py (Reference) is the executable reading of the property text"]
 
@@ -578,7 +579,8 @@ def reserved_names(ctx):
         impl = set(Template("x", enable_loop=rl).reserved_names)
         if model != impl or (rl and impl != set(codegen.RESERVED_NAMES)):
             ctx.disagree("corr.reserved_table", {"enable_loop": rl}, sorted(model), sorted(impl))
-    names = sorted(codegen.RESERVED_NAMES)
+    # the oracle uses the names of the property text, not whatever the code under test lists
+    names = ["STOP_RENDERING", "UNDEFINED", "context", "loop"]
     # (i) binding forms
     cases = []
     so = ctx.stream("oracle.reserved_forms", "oracle", exhaustive=True)
